@@ -3,7 +3,6 @@ package dns
 import (
 	"crypto/sha1"
 	"encoding/hex"
-	"strings"
 )
 
 // HashName hashes a string (label) according to RFC 5155. It returns the hashed string in uppercase.
@@ -20,7 +19,7 @@ func HashName(label string, ha uint8, iter uint16, salt string) string {
 	wireSalt = wireSalt[:n]
 
 	name := make([]byte, 255)
-	off, err := PackDomainName(strings.ToLower(label), name, 0, nil, false)
+	off, err := PackDomainName(toLowerASCII(label), name, 0, nil, false)
 	if err != nil {
 		return ""
 	}
@@ -49,20 +48,20 @@ func (rr *NSEC3) Cover(name string) bool {
 	if nameHash == "" { // unsupported hash algorithm or bad salt: nothing can be said
 		return false
 	}
-	owner := strings.ToUpper(rr.Hdr.Name)
+	owner := toUpperASCII(rr.Hdr.Name)
 	labelIndices := Split(owner)
 	if len(labelIndices) < 2 {
 		return false
 	}
 	ownerHash := owner[:labelIndices[1]-1]
 	ownerZone := owner[labelIndices[1]:]
-	if !IsSubDomain(ownerZone, strings.ToUpper(name)) { // name is outside owner zone
+	if !IsSubDomain(ownerZone, toUpperASCII(name)) { // name is outside owner zone
 		return false
 	}
 
 	// The owner name is compared in upper case, so the next hashed owner
 	// name, which zone files may spell in lower case, has to be as well.
-	nextHash := strings.ToUpper(rr.NextDomain)
+	nextHash := toUpperASCII(rr.NextDomain)
 
 	// if empty interval found, try cover wildcard hashes so nameHash shouldn't match with ownerHash
 	if ownerHash == nextHash && nameHash != ownerHash { // empty interval
@@ -83,14 +82,14 @@ func (rr *NSEC3) Cover(name string) bool {
 // Match returns true if a name matches the NSEC3 record
 func (rr *NSEC3) Match(name string) bool {
 	nameHash := HashName(name, rr.Hash, rr.Iterations, rr.Salt)
-	owner := strings.ToUpper(rr.Hdr.Name)
+	owner := toUpperASCII(rr.Hdr.Name)
 	labelIndices := Split(owner)
 	if len(labelIndices) < 2 {
 		return false
 	}
 	ownerHash := owner[:labelIndices[1]-1]
 	ownerZone := owner[labelIndices[1]:]
-	if !IsSubDomain(ownerZone, strings.ToUpper(name)) { // name is outside owner zone
+	if !IsSubDomain(ownerZone, toUpperASCII(name)) { // name is outside owner zone
 		return false
 	}
 	if ownerHash == nameHash {
